@@ -240,3 +240,12 @@ EXTRA5 = {
 for _k, _v in EXTRA5.items():
     _t = CLAIMED[_k]
     CLAIMED[_k] = (_t[0], _t[1] + " " + _v, _t[2], _t[3])
+EXTRA6 = {
+ "C01": "Round 10: no unique index of the schema compares under a collation, over an expression or on part of the rows (the pre-checks compare key strings byte for byte).",
+ "C02": "Round 10: swap stores its signatures only after the spent-table insert succeeded (shared with C01.R3).",
+ "C06": "Round 10: unique keys compare byte for byte (a collating index refuses, after the inputs were spent, a row the pre-checks let through).",
+ "C15": "Round 10: blind signatures are produced only inside the swap and mint operations (who-signs census shared with C02.R16), so restore knows every signature handed out.",
+}
+for _k, _v in EXTRA6.items():
+    _t = CLAIMED[_k]
+    CLAIMED[_k] = (_t[0], _t[1] + " " + _v, _t[2], _t[3])
